@@ -309,7 +309,8 @@ _UNI = [chr(c) for a, b in _UNI_RANGES for c in range(a, b + 1) if chr(c).isprin
 # field ends, must not depend on them (NEL, LINE SEPARATOR, PARAGRAPH SEPARATOR, no-break space, zero-width space)
 _UNI_ODD = ["\u0085", "\u2028", "\u2029", "\u00a0", "\u200b"]
 _MARK = ["<", ">", "&", "*", "#", "|", "\\", "~", "@", "$", "^", "`", "'''", "&amp;", "<b>", "</i>", "!#", "**", "''", "\\n",
-         "%s", "&lt;", "<!--", "-->", "//", "=="]
+         "%s", "&lt;", "<!--", "-->", "//", "==",
+         "&#8203;", "&#8203;", "x&#8203;y", "&#x200b;"]      # the TEXT of a character entity (the wiki format uses this one in names)
 DESC_KINDS = ("plain", "eq", "quote", "qstart", "unicode", "markup")
 
 
